@@ -278,6 +278,20 @@ func (f *fields) delAt(i int) bool {
 	copy(a[i:], a[i+1:])
 	a[len(a)-1] = nil
 	f.a = a[:len(a)-1]
+
+	// the entries that moved down are known by their new index from now on
+	for j := i; j < len(f.a); j++ {
+		name := fmt.Sprintf("%d", j)
+		switch v := f.a[j].(type) {
+		case nil:
+		case cfgSub:
+			v.c.ctx.field = name
+		default:
+			ctx := v.Context()
+			ctx.field = name
+			v.SetContext(ctx)
+		}
+	}
 	return true
 }
 
